@@ -117,6 +117,13 @@ func genC04(r *Rng, tier string) *Plan {
 	if r.Chance(1, 2) {
 		prof = &ProfileSpec{Name: "vp", File: "validity-profile", Ext: "yaml", Validity: genValSpec(r)}
 		p.Add(Op{K: "put-prof", Prof: prof})
+		if r.Chance(1, 4) {
+			// another profile whose name differs only in letter case or a blank: a different profile
+			// with a different validity; which file is read first must not matter either
+			other := &ProfileSpec{Name: Pick(r, []string{"VP", "Vp", "vP", "vp ", " vp"}), File: Pick(r, []string{"a-other-profile", "z-other-profile"}), Ext: "yaml", Validity: genValSpec(r)}
+			p.Add(Op{K: "put-prof", Prof: other})
+			p.Meta["profile-name-twin"] = other.Name
+		}
 	}
 	root := &EntitySpec{ID: "r", Name: "root", Ext: "yaml", Subject: []RDN{{"CN", "Root"}}, Validity: genValSpec(r)}
 	if prof != nil && r.Bool() {
